@@ -17,7 +17,7 @@ def main():
     core.setup_repo_path()
     mod = core.load_module(body["property"])
     case = core.decode_case(body["case"])
-    out = mod.run_case(case)
+    out = core.guarded_run(mod, case)
     if out.discrepancies:
         for d in out.discrepancies:
             print(f"  {d}")
